@@ -52,6 +52,75 @@ func runC28(w *World, r *Report) {
 	c28Bound(w, r, ci)
 	c28Eviction(w, r, ci)
 	c28Lifetime(w, r, ci)
+	c28Replace(w, r, ci)
+}
+
+// c28Replace: R-C28-7. Storing under a key that is already present is a
+// replacement and must not be refused by the capacity test: every path of Add
+// that returns without storing has either removed the old entry for the key or
+// looked the key up in Items (to tell a replacement from a new entry).
+func c28Replace(w *World, r *Report, ci *cachesInfo) {
+	r.Rule("R-C28-7", "replacement is not refused: in Add every path from entry to a return that skips the store into Items passes a delete(Items, key) or a lookup Items[key] (or creates the cache)", 1)
+
+	fn := w.ssaFunc(ci.pkg, "Add")
+	if fn == nil {
+		r.Anchor("R-C28-7", "caches.Add")
+
+		return
+	}
+
+	keyParam := ssa.Value(nil)
+
+	for _, p := range fn.Params {
+		if p.Name() == "key" {
+			keyParam = p
+		}
+	}
+
+	knowsKey := func(in ssa.Instruction) bool {
+		obj, _, ok := ci.sharedAccess(in)
+		if !ok || obj != "Cache.Items" {
+			// creating the cache: nothing can be present
+			if c, isCall := in.(*ssa.Call); isCall {
+				if cf := calleeFunction(c.Common()); cf != nil && cf.Name() == "newCache" {
+					return true
+				}
+			}
+
+			return false
+		}
+
+		switch x := in.(type) {
+		case *ssa.Lookup:
+			return stripValue(x.Index) == keyParam
+		case *ssa.MapUpdate:
+			return true // the store itself
+		case *ssa.Call:
+			return mutName(x) == "delete" && len(x.Call.Args) == 2 && stripValue(x.Call.Args[1]) == keyParam
+		}
+
+		return false
+	}
+
+	// ignore the `!active` early return: caching is switched off altogether
+	cuts := cutEdges(fn, func(f Fact) bool {
+		u, ok := f.V.(*ssa.UnOp)
+		if !ok || f.Kind != "false" {
+			return false
+		}
+
+		g, ok := u.X.(*ssa.Global)
+
+		return ok && g.Name() == "active"
+	})
+
+	key := "caches.Add|replacement-not-refused"
+
+	if esc := pathFromEntryAvoiding(fn, cuts, knowsKey, isReturn); esc != nil {
+		r.Violate("R-C28-7", key, w.pos(esc.Pos()), "Add can return without storing and without having removed or looked up the existing entry for the key: when the cache is full, re-adding a present key is refused and lookups keep returning the old value")
+	} else {
+		r.Discharge("R-C28-7", key, w.pos(fn.Pos()), "every non-storing return has dealt with an existing entry for the key")
+	}
 }
 
 func loadCaches(w *World, r *Report) *cachesInfo {
